@@ -255,7 +255,7 @@ def run(ctx):
     quick = ctx.quick()
     rounds = 0
     while True:
-        todo = [(c, lm, drv) for c, lm, drv in core_configs(ctx)] + [(c, lm, None) for c, lm in gen_configs(ctx, 28 if quick else 70)]
+        todo = [(c, lm, drv) for c, lm, drv in core_configs(ctx)] + [(c, lm, None) for c, lm in gen_configs(ctx, 18 if quick else 70)]
         for cfg, (lmin, lmax), drv in todo:
             if ctx.out_of_time(0.85):
                 break
